@@ -407,6 +407,11 @@ class Shape:
                 return ("raw", "bytes:" + b.id, "one-of:" + " | ".join(kinds))
         if isinstance(b, ast.Name) and b.id in self.locals:
             b = self.locals[b.id]
+        if isinstance(b, ast.IfExp) and isinstance(b.body, ast.Constant) and isinstance(b.orelse, ast.Constant) \
+                and isinstance(b.body.value, bytes) and isinstance(b.orelse.value, bytes) \
+                and len(b.body.value) == len(b.orelse.value):
+            # one of two literal byte strings of the same length
+            return ("raw", len(b.body.value), "bool" if len(b.body.value) == 1 else "blob")
         if isinstance(b, ast.Call):
             p = attr_path(b.func)
             if isinstance(b.func, ast.Attribute) and b.func.attr == "to_bytes":
@@ -484,6 +489,8 @@ def normalise(events: List[Event], direction: str) -> Tuple[List[Event], List[st
             if tr[0] == "indexed":
                 prev = evs[i - 1] if i > 0 else None
                 if prev is not None and prev[0] == "int" and len(prev) > 4 and prev[4] == tr[1]:
+                    tr = ("indexed", "the-index-on-the-wire")
+                elif prev is not None and prev[0] == "u64var" and prev[1] == tr[1]:
                     tr = ("indexed", "the-index-on-the-wire")
             out.append(("tree", tr))
         elif e[0] == "int":
